@@ -111,8 +111,8 @@ var ruleEarlyExit = &Rule{
 				}
 				n++
 				key := fmt.Sprintf("%s: existence shortcut #%d", fnName(fn), ord.next(fnName(fn)))
-				if why, ok := earlyExitExceptions[fnName(fn)]; ok {
-					out.excepted(key, p.pos(r.Pos()), fnName(fn), why)
+				if why, ok := earlyExitExceptions[fnName(fn)]; ok && p.emptyMapReturnsNotFound(fn, test) {
+					out.excepted(key, p.pos(r.Pos()), fnName(fn), why+" (checked: a test len(map) == 0 returning not-found dominates the shortcut)")
 					continue
 				}
 				if bad := p.twinProduces(fn, other, test, coll); bad == "" {
